@@ -46,9 +46,13 @@ func buildNilModel(w *World) *nilModel {
 	nm.funcs = pm.methods
 	info := nm.info
 	// validators: bool functions whose first statement is `if p == nil { ...; return [false] }`
-	for _, f := range nm.funcs {
+	for _, f := range w.Funcs("parser") {
 		sig := f.Obj.Type().(*types.Signature)
 		if sig.Params().Len() != 1 || sig.Results().Len() != 1 || !isBasicKind(sig.Results().At(0).Type(), types.Bool) || len(f.Decl.Body.List) == 0 {
+			continue
+		}
+		if assertionValidator(info, f) {
+			nm.validators[f.Obj] = true
 			continue
 		}
 		ifs, ok := f.Decl.Body.List[0].(*ast.IfStmt)
@@ -152,6 +156,39 @@ func buildNilModel(w *World) *nilModel {
 	return nm
 }
 
+// assertionValidator: a func(x) bool whose first statement is `v, ok := x.(T)`
+// followed by `if !ok { return false }`: it returns true only when x holds a
+// T, in particular only when x is not nil.
+func assertionValidator(info *types.Info, f *FuncInfo) bool {
+	sig := f.Obj.Type().(*types.Signature)
+	if len(f.Decl.Body.List) < 2 {
+		return false
+	}
+	as, ok := f.Decl.Body.List[0].(*ast.AssignStmt)
+	if !ok || len(as.Lhs) != 2 || len(as.Rhs) != 1 {
+		return false
+	}
+	ta, ok := unparen(as.Rhs[0]).(*ast.TypeAssertExpr)
+	if !ok || ta.Type == nil || objOf(info, ta.X) != sig.Params().At(0) {
+		return false
+	}
+	okVar := objOf(info, as.Lhs[1])
+	ifs, ok := f.Decl.Body.List[1].(*ast.IfStmt)
+	if !ok || len(ifs.Body.List) != 1 {
+		return false
+	}
+	u, ok := unparen(ifs.Cond).(*ast.UnaryExpr)
+	if !ok || u.Op != token.NOT || objOf(info, u.X) != okVar {
+		return false
+	}
+	ret, ok := ifs.Body.List[0].(*ast.ReturnStmt)
+	if !ok || len(ret.Results) != 1 {
+		return false
+	}
+	tv := info.Types[ret.Results[0]]
+	return tv.Value != nil && tv.Value.ExactString() == "false"
+}
+
 // terminates: the statement list ends by leaving the enclosing flow.
 func terminates(list []ast.Stmt) bool {
 	if len(list) == 0 {
@@ -202,6 +239,14 @@ func (nm *nilModel) guarded(info *types.Info, w *World, e ast.Expr, at ast.Node)
 		cal := calleeOf(info, call)
 		return cal != nil && nm.validators[cal] && sameObjExpr(info, call.Args[0], e)
 	}
+	isPassedValidator := func(c ast.Expr) bool {
+		call, ok := unparen(c).(*ast.CallExpr)
+		if !ok || len(call.Args) != 1 {
+			return false
+		}
+		cal := calleeOf(info, call)
+		return cal != nil && nm.validators[cal] && sameObjExpr(info, call.Args[0], e)
+	}
 	var child ast.Node = at
 	for p := w.Parent(at); p != nil; child, p = p, w.Parent(p) {
 		switch x := p.(type) {
@@ -224,7 +269,25 @@ func (nm *nilModel) guarded(info *types.Info, w *World, e ast.Expr, at ast.Node)
 		case *ast.IfStmt:
 			if child == ast.Node(x.Body) {
 				for _, cj := range conjuncts(x.Cond) {
-					if isNonNilTest(cj) {
+					if isNonNilTest(cj) || isPassedValidator(cj) {
+						return true
+					}
+				}
+				// A || B: every alternative establishes e != nil
+				if ds := disjuncts(x.Cond); len(ds) > 1 {
+					all := true
+					for _, d := range ds {
+						one := false
+						for _, cj := range conjuncts(d) {
+							if isNonNilTest(cj) || isPassedValidator(cj) {
+								one = true
+							}
+						}
+						if !one {
+							all = false
+						}
+					}
+					if all {
 						return true
 					}
 				}
@@ -533,17 +596,31 @@ func commaOKPartner(info *types.Info, f *FuncInfo, o types.Object) types.Object 
 }
 
 func underOK(info *types.Info, w *World, at ast.Node, okVar types.Object) bool {
+	// the ok flag is known true: enclosing `if ok`, a preceding `if !ok { leave }`, or a left conjunct `ok && <use>`
+	isOK := func(cond ast.Expr, truth bool) bool {
+		cond = unparen(cond)
+		if u, isNot := cond.(*ast.UnaryExpr); isNot && u.Op == token.NOT {
+			cond, truth = unparen(u.X), !truth
+		}
+		return truth && objOf(info, cond) == okVar
+	}
+	if w.dominatedBy(info, at, []types.Object{okVar}, isOK) {
+		return true
+	}
 	var child ast.Node = at
 	for p := w.Parent(at); p != nil; child, p = p, w.Parent(p) {
-		if ifs, ok := p.(*ast.IfStmt); ok && child == ast.Node(ifs.Body) {
-			for _, cj := range conjuncts(ifs.Cond) {
-				if objOf(info, cj) == okVar {
+		if be, ok := p.(*ast.BinaryExpr); ok && be.Op == token.LAND && child == ast.Node(be.Y) {
+			for _, cj := range conjuncts(be.X) {
+				if isOK(cj, true) {
 					return true
 				}
 			}
 		}
-		if _, ok := p.(*ast.FuncDecl); ok {
-			break
+		if _, ok := p.(ast.Stmt); ok {
+			// the condition of an if is part of the statement: keep climbing only through expressions
+			if ifs, isIf := p.(*ast.IfStmt); !isIf || child != ast.Node(ifs.Cond) {
+				break
+			}
 		}
 	}
 	return false
